@@ -255,8 +255,17 @@ def _run(repo, chk):
         def _would(tt, pol):
             # the edge on which the error is known to be "would block": `== EWOULDBLOCK` true, `!= EWOULDBLOCK` false, `in (EAGAIN, EWOULDBLOCK)` true …
             fc = pat.compare_fact(tt, pol)
-            return fc is not None and fc[1] in ('==', 'in', 'is') and ('EWOULDBLOCK' in fc[2] or 'EAGAIN' in fc[2] or 'EWOULDBLOCK' in fc[0] or 'EAGAIN' in fc[0])
+            return fc is not None and fc[1] in ('==', 'in', 'is') and any(w_ in fc[2] or w_ in fc[0] for w_ in ('EWOULDBLOCK', 'EAGAIN', 'SSL_ERROR_WANT_READ', 'SSL_ERROR_WANT_WRITE'))
         would = pat.test_edge(_would)
+        # the TLS layer reports an incomplete record as SSLWantRead (and a renegotiation as SSLWantWrite): that is "nothing to read yet", not a failure
+        tls_wait = [e for n in reg if n.kind == 'test' for e in n.succ if (lambda fc: fc is not None and fc[1] in ('==', 'in') and 'SSL_ERROR_WANT_READ' in fc[2])(
+            pat.compare_fact(n.ast, e.kind))]
+        okw = bool(tls_wait)
+        for e in tls_wait:
+            seen_, _ = Q.search([e.dst], exc=())
+            if any(x in seen_ or x is e.dst for x in errs + cls_):
+                okw = False
+        chk.ob('e', rd.ref, 'an incomplete TLS record (SSLWantRead / SSLWantWrite from recv) is waited for: no error event, no close', okw, loc(rd, h.ast), discr='tls-want-is-wait')
         p1 = pat.escapes_region(gr, h, reg, lambda n: n in errs, avoid_edge=would, exits=('exit',))
         p2 = pat.escapes_region(gr, h, reg, lambda n: n in cls_, avoid_edge=would, exits=('exit',))
         chk.ob('e', rd.ref, 'a receive error other than "would block" produces an error event and closes the connection', p1 is None and p2 is None
